@@ -136,6 +136,10 @@ struct Env {
     next_id: AtomicU32,
     events: Mutex<Vec<(u64, Value)>>,
     header: Value,
+    /// lazy marking: the marker is written with the first fill, so a batch
+    /// that is never filled is submitted truly empty
+    lazy: bool,
+    marked: Mutex<std::collections::HashSet<u32>>,
 }
 
 impl Env {
@@ -164,6 +168,8 @@ impl Env {
             create_lock: Mutex::new(()),
             next_id: AtomicU32::new(0),
             events: Mutex::new(Vec::new()),
+            lazy: header.get("lazy").and_then(Value::as_bool).unwrap_or(false),
+            marked: Mutex::new(std::collections::HashSet::new()),
             header,
         })
     }
@@ -190,7 +196,9 @@ impl Env {
             ce = self.tick();
             id = self.next_id.fetch_add(1, Ordering::SeqCst);
         }
-        block_on(self.marks.insert(id, t, &mut b));
+        if !self.lazy {
+            block_on(self.marks.insert(id, t, &mut b));
+        }
         self.open.lock().insert(id, b);
         self.ev(ce, json!({"e":"create","b":id,"t":t,"cs":cs,"ce":ce}));
         id
@@ -199,6 +207,9 @@ impl Env {
     /// v >= 0: put / insert member, v < 0: delete / remove member
     fn fill(&self, t: u32, id: u32, cell: Cell, v: i64) {
         let mut b = self.open.lock().remove(&id).expect("fill: batch not open");
+        if self.lazy && self.marked.lock().insert(id) {
+            block_on(self.marks.insert(id, t, &mut b));
+        }
         match (cell, v >= 0) {
             (Cell::W(k), true) => block_on(self.cells.insert(k, v as u64, &mut b)),
             (Cell::W(k), false) => block_on(self.cells.remove(&k, &mut b)),
@@ -538,7 +549,8 @@ fn replay_case(case: &Value, idx: usize, out: &mut impl Write, res: &mut impl Wr
         store.gate_close();
     }
     let header = json!({"e":"run","run":idx,"origin":case.get("origin").cloned().unwrap_or(json!("gen")),
-        "threads":nthreads,"sers":sers,"grouping":format!("{grouping:?}"),"mode":"locked","gated":gated});
+        "threads":nthreads,"sers":sers,"grouping":format!("{grouping:?}"),"mode":"locked","gated":gated,
+        "lazy": case["lazy"].as_bool().unwrap_or(false)});
     let env = Env::new(store.clone(), sers, header);
     *CURRENT.lock() = Some(env.clone());
 
@@ -675,7 +687,16 @@ fn replay_case(case: &Value, idx: usize, out: &mut impl Write, res: &mut impl Wr
         result["got_db"] = json!(got_db);
         result["drop_panic"] = json!(o.panic);
         if let Some(exp) = case.get("expect") {
-            let want_log: Vec<Vec<u64>> = serde_json::from_value(exp["log"].clone()).unwrap_or_default();
+            let mut want_log: Vec<Vec<u64>> = serde_json::from_value(exp["log"].clone()).unwrap_or_default();
+            if env.lazy {
+                // never-filled batches carry no marker: invisible in the commit log
+                let filled: std::collections::HashSet<u64> = case["actions"].as_array().unwrap().iter()
+                    .filter(|a| a["a"] == "fill").map(|a| a["b"].as_u64().unwrap()).collect();
+                for g in &mut want_log {
+                    g.retain(|b| filled.contains(b));
+                }
+                want_log.retain(|g| !g.is_empty());
+            }
             let mut want_db: BTreeMap<String, i64> = BTreeMap::new();
             for kv in exp["db"].as_array().unwrap() {
                 let k = kv["k"].as_u64().unwrap() as u32;
@@ -741,6 +762,7 @@ fn random_run(seed: u64, idx: usize, out: &mut impl Write, small: bool) {
         set_keys: rng.gen_range(1..=2),
         gate_mode: rng.gen_range(0..4),
     };
+    let lazy = rng.gen_bool(0.5);
     let store = Store::new(plan.grouping);
     // gate modes: 0 open all the time; 1 closed from the start, opened while
     // the submitters run; 2 closed from the start, still closed when Drop
@@ -750,7 +772,7 @@ fn random_run(seed: u64, idx: usize, out: &mut impl Write, small: bool) {
     }
     let header = json!({"e":"run","run":idx,"origin":"random","seed":seed.to_string(),"threads":plan.threads,"sers":plan.sers,
         "grouping":format!("{:?}", plan.grouping),"mode": if plan.locked {"locked"} else {"racing"},
-        "gate_mode":plan.gate_mode,"gated": plan.gate_mode != 0});
+        "gate_mode":plan.gate_mode,"gated": plan.gate_mode != 0, "lazy": lazy});
     let env = Env::new(store.clone(), plan.sers, header);
     *CURRENT.lock() = Some(env.clone());
 
